@@ -239,8 +239,8 @@ def impl_init():
             seq = []
             for fl in (("S", "SA", "S", "SA") if len(c["sig"]) % 2 else ("SA", "S", "SA", "S")):
                 try:
-                    r2 = impersonate_tcp(SIP() / STCP(flags=fl, seq=1, ack=1 if "A" in fl else 0), raw_label="s:unix:L:1", database=ldb)
-                    seq.append([fl, r2.getlayer("TCP").window, dict(r2.getlayer("TCP").options).get("WScale")])
+                    r2 = impersonate_tcp(SIP() / STCP(flags=fl, seq=1, ack=1 if "A" in fl else 0), raw_label="s:unix:L:1", database=ldb, extra_hops=3)
+                    seq.append([fl, r2.getlayer("TCP").window, dict(r2.getlayer("TCP").options).get("WScale"), r2.ttl])
                 except Exception as e:
                     seq.append([fl, type(e).__name__, None])
             out["by_label"] = seq
@@ -339,6 +339,10 @@ def judge(c, ir, mr):
         return None          # the generator failed to produce a satisfiable signature: not a case of the property
     if not isinstance(ir, dict) or "exc" in ir:
         return {"kind": "harness-level failure", "why": str(ir)[:300]}
+    from harness.props import c14 as _c14
+    bl = _c14.by_label_problem(ir)
+    if bl:
+        return bl
     mm = mr.get("model")
     if isinstance(mm, dict) and "ok" in mm and mm["ok"].get("supported") and mm["ok"].get("coherent") and c["uptime"] is None:
         # the case is inside the domain of theorem C05_supported_sound: the model's own output must pass the oracle
